@@ -363,7 +363,7 @@ def object_level(acc, rng, model, ident):
         met = rng.choice(list(model.metabolites))
         # (the property names Reaction.copy, Metabolite.copy and + - *; copy.copy /
         # deepcopy / pickle of a single reaction are not claimed)
-        for what in ("Reaction.copy", "Metabolite.copy", "+", "-", "*"):
+        for what in ("Reaction.copy", "Metabolite.copy", "+", "-", "*", "sum([r])", "r+0", "0+r"):
             acc.ev()
             acc.count("object_level_copies")
             try:
@@ -377,6 +377,12 @@ def object_level(acc, rng, model, ident):
                     res = pickle.loads(pickle.dumps(r))
                 elif what == "Metabolite.copy":
                     res = met.copy()
+                elif what == "sum([r])":
+                    res = sum([r])
+                elif what == "r+0":
+                    res = r + 0
+                elif what == "0+r":
+                    res = 0 + r
                 elif what == "+":
                     res = r + r2
                 elif what == "-":
@@ -392,6 +398,9 @@ def object_level(acc, rng, model, ident):
                 return
             if what == "copy.copy(reaction)":
                 continue  # a shallow copy is documented by the copy module to share
+            if res is r or res is r2:
+                acc.violation(f"C12/{what}/result-is-the-operand-itself", f"{what} returned its operand, not a new reaction", dict(ident, reaction=r.id))
+                continue
             if getattr(res, "model", None) is not None:
                 acc.violation(f"C12/{what}/result-attached-to-model", f"the result of {what} still belongs to a model", dict(ident, reaction=r.id))
                 continue
